@@ -112,6 +112,17 @@ def rect_class(z):
     return O.sign_class(*z[0]).replace('inf', '') + '|' + O.sign_class(*z[1]).replace('inf', '')
 
 
+def coarse_class(z):
+    """coarse class of a second operand (keeps the evidence table readable; violation keys use the full classes)"""
+    (a, b), (c, d) = z
+    if (c, d) == ZERO_IV:
+        return 'real'
+    if (a, b) == ZERO_IV:
+        return 'imaginary'
+    has0 = O.contains_point(a, b, (0, 0)) and O.contains_point(c, d, (0, 0))
+    return 'contains-origin' if has0 else 'generic'
+
+
 def mkc(ctx, z):
     mp, iv = ctx.mp, ctx.iv
     (a, b), (c, d) = z
@@ -146,7 +157,7 @@ def run_checked(ctx, op, prec, call, rects, oracles, variant='', consensus_tier=
     """rects: operand rectangles (for ident / classes); oracles: list of (kind, sample, enclose(wp) -> CB | RB)"""
     rec, iv, r = ctx.rec, ctx.iv, ctx.r
     opclasses = ':'.join(rect_class(z) for z in rects)
-    cls = '%s/%s' % (op, opclasses)
+    cls = '%s/%s' % (op, ':'.join([rect_class(z) for z in rects[:1]] + [coarse_class(z) for z in rects[1:]]))
     if variant:
         rec.cls('variant/%s/%s' % (op, variant))
     ident = (op, variant, tuple(rects), prec, repr(sorted(info.items())) if info else None)
